@@ -2,6 +2,7 @@ package main
 
 import (
 	"go/types"
+	"sort"
 	"strings"
 
 	"golang.org/x/tools/go/ssa"
@@ -16,6 +17,17 @@ func (e *Engine) doCall(p *Path, x *ssa.Call, act *Activation) []Result {
 		args[i] = e.val(p, a)
 	}
 	if b, ok := cc.Value.(*ssa.Builtin); ok {
+		if b.Name() == "append" || b.Name() == "copy" {
+			// slice lengths must be concrete for these: split the path over the feasible lengths
+			var out []Result
+			for _, alt := range e.concretizeLens(p, args) {
+				v := e.builtin(alt.p, b.Name(), cc, alt.args, act)
+				if !alt.p.st.G.IsFalse() {
+					out = append(out, Result{alt.p.st, v})
+				}
+			}
+			return out
+		}
 		v := e.builtin(p, b.Name(), cc, args, act)
 		if p.st.G.IsFalse() {
 			return nil
@@ -47,7 +59,26 @@ func (e *Engine) doCall(p *Path, x *ssa.Call, act *Activation) []Result {
 		}
 		fn, env = fv.fn, fv.env
 	}
+	// a result that flows into an index / slice bound / make size of the caller stays concrete: the callee's
+	// return states are then not merged when they differ in that value
+	saved := e.splitRet
+	e.splitRet = e.retIsSensitive(x, act)
+	defer func() { e.splitRet = saved }()
 	return e.callFn(p, fn, args, env, act.depth, x.Type())
+}
+
+func (e *Engine) retIsSensitive(x *ssa.Call, act *Activation) bool {
+	if act.sens[x] {
+		return true
+	}
+	if refs := x.Referrers(); refs != nil {
+		for _, r := range *refs {
+			if ex, ok := r.(*ssa.Extract); ok && act.sens[ex] {
+				return true
+			}
+		}
+	}
+	return false
 }
 
 // callFn: stubs, models, then the SSA body
@@ -464,4 +495,95 @@ func (e *Engine) idxOf(v Value, t types.Type) *Term {
 		return e.Zext(idx, 64)
 	}
 	return idx
+}
+
+type argAlt struct {
+	p    *Path
+	args []Value
+}
+
+// iteLeaves collects the constant leaves of a nested ite term; ok=false when some leaf is not a constant
+func iteLeaves(t *Term, seen map[uint64]bool, budget *int) bool {
+	if *budget <= 0 {
+		return false
+	}
+	*budget--
+	switch t.op {
+	case OpConst:
+		seen[t.val] = true
+		return true
+	case OpIte:
+		return iteLeaves(t.args[1], seen, budget) && iteLeaves(t.args[2], seen, budget)
+	}
+	return false
+}
+
+// concretizeLens forks p over the feasible concrete values of symbolic len/cap fields of slice/string args
+func (e *Engine) concretizeLens(p *Path, args []Value) []argAlt {
+	alts := []argAlt{{p, args}}
+	for i := range args {
+		for field := 0; field < 2; field++ {
+			var next []argAlt
+			for _, a := range alts {
+				var t *Term
+				switch v := a.args[i].(type) {
+				case SliceV:
+					if field == 0 {
+						t = v.len
+					} else {
+						t = v.cap
+					}
+				case StrV:
+					if field == 0 {
+						t = v.len
+					}
+				}
+				if t == nil || t.IsConst() {
+					next = append(next, a)
+					continue
+				}
+				seen := map[uint64]bool{}
+				budget := 4096
+				var vals []uint64
+				if iteLeaves(t, seen, &budget) && len(seen) <= 64 {
+					for v := range seen {
+						vals = append(vals, v)
+					}
+				} else {
+					// general case: ask the solver for the values the length can take on this path
+					var complete bool
+					vals, complete = e.sol.Enumerate(e.TB, a.p.st.G, t, 64, e.feasMs)
+					if !complete {
+						unsup("symbolic slice length with too many (or undecided) values")
+					}
+				}
+				sort.Slice(vals, func(x, y int) bool { return vals[x] < vals[y] })
+				for _, v := range vals {
+					c := e.Eq(t, e.Const(64, v))
+					if !e.feasible(a.p.st.G, c) {
+						continue
+					}
+					q := e.clonePath(a.p)
+					e.nForks++
+					q.st.G = e.And(q.st.G, c)
+					nargs := append([]Value(nil), a.args...)
+					switch sv := nargs[i].(type) {
+					case SliceV:
+						if field == 0 {
+							sv.len = e.Const(64, v)
+						} else {
+							sv.cap = e.Const(64, v)
+						}
+						nargs[i] = sv
+					case StrV:
+						sv.len = e.Const(64, v)
+						nargs[i] = sv
+					}
+					next = append(next, argAlt{q, nargs})
+				}
+			}
+			alts = next
+		}
+	}
+	return alts
 }
